@@ -127,6 +127,7 @@ def generate(seed, run, tier):
         "suffix_aware": crng.random() < 0.5,
         "kwargs": variant_kwargs(cls, crng),
     }
+    config["explicit_default"] = crng.random() < 0.5
     size = crng.choice([12, 20, 30, 40] if tier == "quick" else [12, 20, 30, 50, 80])
     universe = build_universe(crng, size)
     config["universe"] = universe
@@ -365,7 +366,12 @@ class Run(object):
         cls = config["cls"]
         self.kwargs = dict(config["kwargs"])
         self.suffix_aware = config["suffix_aware"]
-        self.trie = getattr(lru, cls)(suffix_aware=self.suffix_aware, **self.kwargs)
+        if self.suffix_aware or config.get("explicit_default", False):
+            self.trie = getattr(lru, cls)(suffix_aware=self.suffix_aware, **self.kwargs)
+        else:
+            # suffix_aware is documented to default to False: half of the tries
+            # that want False simply do not pass it
+            self.trie = getattr(lru, cls)(**self.kwargs)
         self.stem_fn = {
             "LRUTrie": stems_mod.lru_stems,
             "CanonicalizedLRUTrie": stems_mod.canonicalized_lru_stems,
@@ -411,8 +417,13 @@ class Run(object):
 
     def key_of(self, url):
         if self.cfg["cls"] == "LRUTrie":
-            return clean(self.stem_fn(url, suffix_aware=self.suffix_aware))
-        return clean(self.stem_fn(url, suffix_aware=self.suffix_aware, **self.kwargs))
+            stems = self.stem_fn(url, suffix_aware=self.suffix_aware)
+        else:
+            stems = self.stem_fn(url, suffix_aware=self.suffix_aware, **self.kwargs)
+        if not isinstance(stems, (list, tuple)):
+            # the module-level stem function is part of the system under test
+            raise Violation("stem_function", "tokenize", r(stems), "a list of stems", {"url": url})
+        return clean(stems)
 
     def fail(self, invariant, op, got, expected, detail=None):
         finding = self.known.match(NAME, {"invariant": invariant, "op": op, "got": got, "expected": expected, "detail": detail})
